@@ -286,6 +286,10 @@ func init() {
 				if i%10 == 9 {
 					nr = r.intn(65)
 				}
+				manyFail := i%25 == 24 // a large batch in which most or all attempts fail: every failure is named
+				if manyFail {
+					nr = 40 + r.intn(25)
+				}
 				var rs []interface{}
 				script := J{}
 				for k := 0; k < nr; k++ {
@@ -294,7 +298,7 @@ func init() {
 					if _, ok := script[u]; !ok {
 						var as []interface{}
 						for j, m := 0, 1+r.intn(2); j < m; j++ {
-							if r.chance(55) {
+							if r.chance(55) && !manyFail {
 								as = append(as, statuses[r.intn(3)])
 							} else {
 								as = append(as, statuses[r.intn(len(statuses))])
